@@ -1,5 +1,7 @@
-// Harness for C12: drives ocifilter.AccessChecker and ocifilter.Select over a recording
-// backend (ociregistry.Funcs with every field set).
+// Harness for C12: drives ocifilter.AccessChecker and ocifilter.Select - one wrapper, or several
+// applied to each other with independent policies - over a recording backend
+// (ociregistry.Funcs with every field set), handed to the constructors as it is or under
+// another dynamic type (dyn.go, stackgen.go).
 package main
 
 import (
@@ -61,6 +63,11 @@ type input struct {
 	Method  string       `json:"method,omitempty"`
 	// CtxDone: every call of the history is made with a context that is already cancelled
 	CtxDone bool `json:"ctx_done,omitempty"`
+	// Policy is the policy of the outermost wrapper; Dyn the dynamic type under which the
+	// registry it wraps is handed to it; Under the wrappers between it and the recording
+	// backend, outermost first (see dyn.go)
+	Dyn   string  `json:"dyn,omitempty"`
+	Under []under `json:"under,omitempty"`
 }
 
 func (p policy) coq() string {
@@ -215,7 +222,7 @@ func runHist(in input) (string, observed) {
 	b := &filt.Backend{}
 	b.Answer = in.Backend.answer(b)
 	var pc int
-	w := in.Policy.wrap(b.Interface(), &pc)
+	w := in.build(b.Interface(), &pc)
 	ws := &filt.Writers{Index: b.WriterIndex}
 	var obs observed
 	var terms []string
@@ -231,7 +238,7 @@ func runHist(in input) (string, observed) {
 		terms = append(terms, "("+res.Coq()+", "+hx.List(cs)+")")
 	}
 	obs.PolicyCalls, obs.BackendCalls = pc, len(b.Calls)
-	return fmt.Sprintf("CHist %s %s %s %s", hx.Bool(in.CtxDone), in.Policy.coq(), filt.OpsCoq(in.Hist), hx.List(terms)), obs
+	return fmt.Sprintf("CHist %s %s %s %s", hx.Bool(in.CtxDone), in.coq(), filt.OpsCoq(in.Hist), hx.List(terms)), obs
 }
 
 func runSeq(in input) (string, observed) {
@@ -242,7 +249,7 @@ func runSeq(in input) (string, observed) {
 	}
 	b.Answer = in.Backend.answer(b)
 	var pc int
-	w := in.Policy.wrap(b.Interface(), &pc)
+	w := in.build(b.Interface(), &pc)
 	var obs observed
 	obs.Yields = []filt.Yield{}
 	panicked, pv := hx.Recover(func() {
@@ -260,7 +267,7 @@ func runSeq(in input) (string, observed) {
 	if in.Stop != nil {
 		stop = fmt.Sprintf("(Some %d)", *in.Stop)
 	}
-	return fmt.Sprintf("CSeq %s %s %s %s %s %d", in.Policy.coq(), filt.B(in.Start), filt.YieldsCoq(in.Events), stop,
+	return fmt.Sprintf("CSeq %s %s %s %s %s %d", in.coq(), filt.B(in.Start), filt.YieldsCoq(in.Events), stop,
 		filt.YieldsCoq(obs.Yields), obs.Delivered), obs
 }
 
@@ -270,7 +277,7 @@ func runPromoted(in input) (string, observed) {
 	b := &filt.Backend{}
 	b.Answer = in.Backend.answer(b)
 	var pc int
-	w := in.Policy.wrap(b.Interface(), &pc)
+	w := in.build(b.Interface(), &pc)
 	var obs observed
 	fld := reflect.ValueOf(w).Elem().FieldByName("Funcs")
 	res := filt.Res{Kind: "err", Err: &filt.Err{Tag: "no embedded Funcs field"}}
@@ -283,7 +290,7 @@ func runPromoted(in input) (string, observed) {
 	}
 	obs.Res = &res
 	obs.PolicyCalls, obs.BackendCalls = pc, len(b.Calls)
-	return fmt.Sprintf("CPromoted %s M%s %s %s %d", in.Policy.coq(), in.Method, hx.Bool(obs.EmbeddedNil), res.Coq(), pc+len(b.Calls)), obs
+	return fmt.Sprintf("CPromoted %s M%s %s %s %d", in.coq(), in.Method, hx.Bool(obs.EmbeddedNil), res.Coq(), pc+len(b.Calls)), obs
 }
 
 func sampleOp(m string, repo, repo2 string) filt.Op {
@@ -502,7 +509,7 @@ func outcomeKind(in input, obs observed) string {
 		if o.Res.Kind == "panic" {
 			return "panic"
 		}
-		if i < len(in.Hist) && len(o.Calls) > 0 && in.Policy.refuses(in.Hist[i]) {
+		if i < len(in.Hist) && len(o.Calls) > 0 && in.refuses(in.Hist[i]) {
 			// only a label for grouping the replays; the verdict is Coq's
 			return "reached-backend-though-refused"
 		}
@@ -527,9 +534,14 @@ func main() {
 		}
 		kind := outcomeKind(in, obs)
 		if out.Add(hx.Case{Coq: coq, Desc: map[string]any{"input": in, "observed": obs, "origin": origin},
-			Tags: map[string]any{"class": in.Policy.Wrapper + "/" + in.Kind + "/" + m + "/" + kind, "method": m, "wrapper": in.Policy.Wrapper, "observed_kind": kind}}) {
+			Tags: map[string]any{"class": in.shape() + "/" + in.Kind + "/" + m + "/" + kind, "method": m, "wrapper": in.shape(), "observed_kind": kind}}) {
 			out.Count("kind:" + in.Kind)
-			out.Count("wrapper:" + in.Policy.Wrapper)
+			out.Count("wrapper:" + in.shape())
+			for _, l := range in.layers() {
+				if l.Dyn != "" {
+					out.Count("dyn:" + l.Dyn)
+				}
+			}
 			out.Count("method:" + m)
 			out.Count("origin:" + origin)
 			out.Count("outcome:" + kind)
@@ -830,6 +842,8 @@ func main() {
 		add(input{Kind: "promoted", Policy: policy{Wrapper: "check"}, Method: m}, "promoted")
 		add(input{Kind: "promoted", Policy: policy{Wrapper: "select", AllowDefault: true}, Method: m}, "promoted")
 	}
+	// ---- wrappers applied to each other, wrappers over registries of other dynamic types ----
+	stackEnum(add, polsOf, writerUse)
 
 	// ---- random histories over a few names with random policies ----
 	names := []string{"foo/r", "bar", "a/b/c", "*", "zed", "Foo/R", ""}
@@ -931,6 +945,12 @@ func main() {
 		}
 		add(in, "random-seq")
 	}
+	// ---- the same through stacks of wrappers with independent policies ----
+	nhs, nseqs := 350, 250
+	if cfg.Thorough() {
+		nhs, nseqs = 5000, 8000
+	}
+	stackRandom(add, rnd, randPolicy, names, nhs, nseqs)
 	if err := out.Flush(); err != nil {
 		panic(err)
 	}
